@@ -14,12 +14,12 @@ MANIFEST = {
     "technique": "Coq proof (per-row token expansion from the template's PER_GUARDTRANSITION shape, brace-parser lemma, execution vs the table interpreter's step) + tokenising the real generated classes",
     "text": ("Theorems C10_handlers (for every table, state, event, guard oracle: the handler body has matching braces and executes exactly the interpreter's "
              "step for the rows of (state,event) in table order; state object and estate enum agree afterwards), C10_handlers_listed_only, C10_state_classes "
-             "(class for every state incl. target-only ones, and for nothing else), C10_context_decls_partial. Tie: the PER_GUARDTRANSITION shape and the nesting "
+             "(class for every state incl. target-only ones, and for nothing else), C10_context_decls (every guard, (action,event) signature, hook, event class with members, Is/Trigger method, enum entry, base handler and state class a row needs is declared exactly once, as (kind, name, params) triples of Model/Decls.v over Gen/DeclTmpl.v). Tie: the PER_GUARDTRANSITION shape and the nesting "
              "around it are regenerated from TEMPLATEInternals.cs into Gen/CsTmpl.v; the real <Name>Internals.cs is tokenised per class / per Trigger<Event> override "
              "and compared with CsSM.cs_handler, and independently executed by a small Python token interpreter against a Python reading of the property; "
              "context/interface declarations extracted by regex and counted."),
     "note": ("No C# compiler: the statements are about the emitted token structure and the model's reading of Exit<S>()/Enter<T>() (checked textually by the translator), "
-             "not about csc accepting the files. Context declarations: PARTIAL in Coq (element lists), observed by regex on the real files. "
+             "not about csc accepting the files. Context declarations are proved for names, parameter lists and multiplicities; the triples are read out of the real files by regex and compared with Decls.decls_file. "
              "The class/handler nesting (PER_STATETRANSITION / PER_EVENTTRANSITION) is modelled in closed form, its template shape is checked by the translator."),
 }
 RULE = ("random well-formed tables (as C08) incl. colliding signature concatenations; C# primitive member types with (trailing) defaults; StateMachineThread 0/1/absent; "
